@@ -278,11 +278,32 @@ def run(trace, render=None, color=False, snapshot_db=True):
         evrec.pop('_nh_before', None)
         evrec['obs'] = obs
 
+    def do_eval(evrec):
+        ev = evrec['in']
+        text = mrender.r_top(ev['ast'], mrender.Spelling(*ev.get('spell', ('', '', ()))))
+        obs = {'items': S.items(), 'text': text}
+        try:
+            mm = m.matcher.parse(text).simplify()
+            obs['accepted'] = True
+            obs['msel'] = [bool(mm.matches(x)) for x in S.hist()]
+        except RuntimeError as e:
+            obs['accepted'] = False
+            obs['msel'] = []
+            obs['error'] = str(e)[:200]
+        except Exception as e:      # not a diagnostic but a failure of the tool (C18); shows up as a length mismatch here
+            obs['accepted'] = True
+            obs['msel'] = []
+            obs['crash'] = repr(e)[:200]
+        evrec['obs'] = obs
+
     def do_commands():
-        """run command events at the cursor; stop at the first non-command"""
-        while state['i'] < len(events) and events[state['i']]['in']['e'] == 'cmd':
+        """run command / eval events at the cursor; stop at the first line event"""
+        while state['i'] < len(events) and events[state['i']]['in']['e'] in ('cmd', 'eval'):
             evrec = events[state['i']]
             state['i'] += 1
+            if evrec['in']['e'] == 'eval':
+                do_eval(evrec)
+                continue
             S.ctl.process_command(command_text(evrec['in']))
             observe(evrec)
 
